@@ -4,6 +4,7 @@ import Driver.ReadCmd
 import Driver.HistCmd
 import Driver.UHistCmd
 import Driver.EventsCmd
+import Driver.GennyCmd
 open Driver
 
 def dispatch (line : String) : String :=
@@ -14,6 +15,7 @@ def dispatch (line : String) : String :=
     | "core" => coreCmd rest
     | "events" => eventsCmd rest
     | "perf-rt" => perfRtCmd rest
+    | "genny" => gennyCmd rest
     | "hist" => histCmd rest
     | "uhist" => uhistCmd rest
     | "read" => readCmd rest
